@@ -155,7 +155,31 @@ fn rule_for(prop: &str) -> &'static str {
         "C16" => "class-M hierarchical cases (sub-models to depth 3+, empty names, init scripts that send events and queries); oracle = exactly one init per model during SimInit::init, before any message of that model, never later; messages sent before the recipient's init are in the expansion multiset; Context::name()/error reports use parent.child; non-trivial = sub-models present AND an init that sends to another model; distinct = hash of the JSON case",
         "C17" => "c17-sink-api: generated write/read/drain/open/close sequences (1-80 ops, 3 writer clones, capacities 1-39) on EventBuffer and EventSlot against a VecDeque/Option model; non-trivial = buffer overflowed (and capacity>1 or a write while closed) / slot overwritten then read then empty. c17-sim: class-M cases, sink content per (model, output) must be in sending order; non-trivial = a sink holds >=2 sends of one output; distinct = hash of the JSON case",
         "C20" => "generated insert/pull/peek/extract sequences (1-400 ops, key alphabet 0..3 plus random keys) on the real PriorityQueue and IndexedPriorityQueue sources (compiled in with #[path]) against a linear reference (smallest key, then first inserted; extract only through the key issued for that entry); non-trivial = >=2 insertions of an already resident key AND (indexed) a stale key whose slab slot has been reused by a live entry / (plain) the queue ran empty; distinct = hash of the JSON case",
+        "C11" => "class-F cases: an acyclic class-M bench plus one generated fault (panic x3 payload kinds in model/sub-model/init, send to a dropped mailbox from a model or a source, self-query deadlock, orphan mailbox, clock lag above tolerance at the k-th step, overrunning handler with a 250 ms timeout), 0-2 step_until-into-the-past commands, 1-6 calls after the fatal error; oracle = predicted error kind and attribution of every command from the expansion, Terminated/no panic/no handling of the injected message/time unchanged afterwards, all handlers run after a non-fatal error; non-trivial = a fatal fault was hit after init and >=2 further calls were made, or a command ran normally after a non-fatal error; distinct = hash of the JSON case",
+        "C19" => "class-F cases with drop-counting tokens in every model, message, reply and scheduled event, dropped at a generated point (idle, stalled, failed, scheduled events pending); oracle = tokens created == tokens dropped after the drop, worker threads that ran handlers == worker threads exited, no handler record after the drop; non-trivial = >=5 tokens AND (dropped after a fatal error OR with scheduled events pending); distinct = hash of the JSON case",
         _ => "see DESIGN.md",
+    }
+}
+
+fn assumptions_for(prop: &str) -> Vec<&'static str> {
+    match prop {
+        "C01" | "C07" | "C08" | "C09" | "C10" | "C18" => vec![
+            "RefSim (simlab/src/refsim.rs) encodes the documented semantics correctly",
+            "the scripted model Node logs faithfully (stamps from one global atomic counter)",
+            "multi-threaded runs sample schedules; they do not enumerate them",
+        ],
+        "C20" => vec!["the linear reference queue in simlab/src/lowprops.rs is correct", "sequences are sampled, not enumerated"],
+        "C11" | "C19" => vec![
+            "the expansion (simlab/src/mclass.rs) predicts which command reaches the injected fault",
+            "drop-counting tokens and the thread-local exit guard observe every release",
+            "a call or drop that never returns is reported as inconclusive (watchdog), not as a violation",
+            "multi-threaded runs sample schedules; they do not enumerate them",
+        ],
+        _ => vec![
+            "reactions of the scripted model depend on message content only, so the sequential expansion (simlab/src/mclass.rs) gives the multiset of handler invocations of a command",
+            "the scripted model Node logs faithfully (stamps from one global atomic counter)",
+            "multi-threaded runs sample schedules; they do not enumerate them; a run call that never returns is reported as inconclusive (watchdog)",
+        ],
     }
 }
 
@@ -205,16 +229,8 @@ fn run_property(prop: &'static str, tier: &str, seed: u64) -> i32 {
             return 2;
         }
     }
-    ctx.finish(
-        "simlab",
-        "exploration",
-        rule_for(prop),
-        &[
-            "RefSim (simlab/src/refsim.rs) encodes the documented semantics correctly",
-            "the scripted model Node logs faithfully (stamps from one global atomic counter)",
-            "multi-threaded runs sample schedules; they do not enumerate them",
-        ],
-    )
+    let a = assumptions_for(prop);
+    ctx.finish("simlab", "exploration", rule_for(prop), &a)
 }
 
 fn replay(path: &str) -> i32 {
